@@ -8,7 +8,7 @@ package vswarm
 //@ func (*SecureRealm).getSwarm
 //@   pure
 //@   requires r != nil
-//@   ensures ret != nil ==> inv(ret.asks)
+//@   ensures ret != nil ==> inv(ret.asks) && inv(ret.tells)
 //@   trusted
 //@
 //@ func (*SecureRealm).tell
